@@ -1,7 +1,7 @@
 import DL.Model.Sched
 
 /-!
-# M-SCHED, second half — files that cannot be read or parsed (`examples/dlint/main.rs`, since repair 4da0839)
+# M-SCHED, second half — files that cannot be read or parsed (`examples/dlint/main.rs`, since repair 07a5560)
 
 A worker either finishes with the critical section of `Sched.step`, or — when `read_to_string` / `lint_file` fails —
 with `failures.lock().insert(path, err)` (a second `BTreeMap` keyed by path).  After the parallel phase:
